@@ -96,6 +96,11 @@ fn part_stm(ctx: &Ctx, rep: &mut Report) {
     let large = large_sizes(ctx);
     let mutate_up_to = ctx.tier.pick(40usize, 65usize);
     merge_rev(rep, par_map(&large, threads, |_, &n| stm::large_size_sweep(n, n <= mutate_up_to)));
+    // structure-independent: the commitment binds every leaf (every size of the run, every position)
+    let mut all_sizes: Vec<usize> = (1..=n_honest).collect();
+    all_sizes.extend(large.iter().rev());
+    all_sizes.reverse();
+    merge_rev(rep, par_map(&all_sizes, threads, |_, &n| stm::root_commitment_sweep(n)));
     rep.extra("stm_larger_sizes_with_selected_subsets", json!({"sizes": large, "single_mutations_of_one_and_two_leaf_proofs_up_to_n": mutate_up_to}));
     rep.extra(
         "stm_bounds",
@@ -140,6 +145,14 @@ fn part_mk(ctx: &Ctx, rep: &mut Report) {
     let large = large_sizes(ctx);
     let mutate_up_to = ctx.tier.pick(20usize, 40usize);
     merge_rev(rep, par_map(&large, threads, |_, &n| mk::large_size_sweep(n, n <= mutate_up_to)));
+    let mut all_sizes: Vec<usize> = (1..=n_honest).collect();
+    all_sizes.extend(large.iter().rev());
+    all_sizes.reverse();
+    merge_rev(rep, par_map(&all_sizes, threads, |_, &n| mk::root_commitment_sweep(n)));
+    // where the harness' own description of the hash structure does not reproduce the real root
+    // (never on the unchanged tree) the run goes on without the designed same-root forgeries
+    let differs: Vec<usize> = all_sizes.iter().rev().copied().filter(|&n| mk::World::members(n).map(|w| !w.reference_ok).unwrap_or(false)).collect();
+    rep.extra("mktree_reference_structure_differs_for_sizes", json!(differs));
     rep.extra("mkproof_larger_sizes_with_selected_subsets", json!({"sizes": large, "single_mutations_of_one_and_two_leaf_proofs_up_to_n": mutate_up_to}));
     rep.extra(
         "mkproof_bounds",
@@ -203,6 +216,11 @@ fn part_map(ctx: &Ctx, rep: &mut Report) {
     for p in par_map(&structures, threads, |_, st| map::honest_sweep(st)) {
         rep.merge(p);
     }
+    for p in par_map(&structures, threads, |_, st| map::root_commitment_sweep(st)) {
+        rep.merge(p);
+    }
+    let differs: Vec<String> = structures.iter().filter(|st| map::World::new((*st).clone()).map(|w| !w.reference_ok).unwrap_or(false)).map(|st| st.describe()).collect();
+    rep.extra("mkmap_reference_structure_differs_for", json!({"structures": differs.len(), "first": differs.iter().take(5).collect::<Vec<_>>()}));
     let mut jobs: Vec<(usize, u32, usize, usize, usize)> = vec![];
     for (si, st) in structures.iter().enumerate().rev() {
         let mut items = vec![];
@@ -252,7 +270,9 @@ pub fn run(ctx: &Ctx) -> ! {
          dropped/duplicated/swapped/replaced by every node of the tree, the padding hash, a foreign hash, size and root \
          fields changed, sub-proofs detached/duplicated/re-keyed/replaced/added, plus designed families (forger's path for \
          claims at arbitrary positions, brute force over (position, leaf, path) for tiny trees, honest proofs of other \
-         lists with the same root, honest proofs against neighbouring commitments, key‖sub-root boundary shifts). Every \
+         lists with the same root, honest proofs against neighbouring commitments, key‖sub-root boundary shifts), and a structure-independent check that the root commits to every leaf / item / key \
+         (tree over the list with one place replaced by a never-used value must have another root; if not, the proof generated \
+         for the replacement is verified against the original root). Every \
          case runs through the real verifier. A case counts as non-trivial and distinct when it is an honest proof, a \
          depth-1 mutant, a designed forgery (forger's path: with at most two claimed positions), or any case (whatever depth) that the real verifier accepted; depth-2 and \
          brute-force cases that were rejected are counted in evaluations only.",
@@ -260,10 +280,10 @@ pub fn run(ctx: &Ctx) -> ! {
     if let Some(path) = &ctx.replay {
         let v = mc_core::load_replay(path);
         match v["part"].as_str().unwrap_or("") {
-            "stm" | "stm-honest" | "stm-large" => stm::replay(&mut rep, &v),
+            "stm" | "stm-honest" | "stm-large" | "stm-root" => stm::replay(&mut rep, &v),
             "stm-aggregate" | "stm-aggregate-honest" => agg::replay(&mut rep, &v),
-            "mkproof" | "mkproof-honest" | "mkproof-large" => mk::replay(&mut rep, &v),
-            "mkmap" | "mkmap-honest" => map::replay(&mut rep, &v),
+            "mkproof" | "mkproof-honest" | "mkproof-large" | "mktree-root" => mk::replay(&mut rep, &v),
+            "mkmap" | "mkmap-honest" | "mkmap-root" => map::replay(&mut rep, &v),
             other => {
                 eprintln!("unknown replay part {other}");
                 std::process::exit(2);
